@@ -201,10 +201,24 @@ func c14PEM(c *Ctx) {
 		instrsOf(f, func(_ *ssa.BasicBlock, in ssa.Instruction) {
 			if st, ok := in.(*ssa.Store); ok {
 				if fa, ok := st.Addr.(*ssa.FieldAddr); ok && fieldName(fa.X.Type(), fa.Field) == "Type" {
-					if cs, ok := st.Val.(*ssa.Const); ok {
-						s, _ := constString(cs)
-						out = append(out, s)
+					// the constant itself, or a local that is one of several constants (a phi)
+					var collect func(v ssa.Value, d int)
+					collect = func(v ssa.Value, d int) {
+						if d > 4 {
+							return
+						}
+						switch x := v.(type) {
+						case *ssa.Const:
+							if s, ok := constString(x); ok {
+								out = append(out, s)
+							}
+						case *ssa.Phi:
+							for _, e := range x.Edges {
+								collect(e, d+1)
+							}
+						}
 					}
+					collect(st.Val, 0)
 				}
 			}
 		})
@@ -384,9 +398,25 @@ func c14PKCS8(c *Ctx) {
 		if !ok || call.Call.StaticCallee() == nil || call.Call.StaticCallee().Name() != "pbkdf" {
 			continue
 		}
-		if rci.dominatedByCond(call.Block(), `re:call:\(encoding/asn1\.ObjectIdentifier\)\.Equal\(.*,global:oidKEYSHA1\)`, true) {
+		sha1Cond := `re:call:\(encoding/asn1\.ObjectIdentifier\)\.Equal\(.*,global:oidKEYSHA1\)`
+		direct := rci.dominatedByCond(call.Block(), sha1Cond, true)
+		// or one derivation call after the hash constructor was selected by the PRF OID: the constructor that
+		// arrives from the oidKEYSHA1 branch is what counts
+		var viaPhi ssa.Value
+		if ph, isPhi := call.Call.Args[4].(*ssa.Phi); isPhi && !direct {
+			for i, e := range ph.Edges {
+				if i < len(ph.Block().Preds) && rci.dominatedByCond(ph.Block().Preds[i], sha1Cond, true) {
+					viaPhi = e
+				}
+			}
+		}
+		if direct || viaPhi != nil {
 			a := call.Call.Args
-			s := rbe.plain(a[0], call).String() + "," + rbe.plain(a[3], call).String() + "," + rbe.plain(a[4], call).String()
+			hashArg := a[4]
+			if viaPhi != nil {
+				hashArg = viaPhi
+			}
+			s := rbe.plain(a[0], call).String() + "," + rbe.plain(a[3], call).String() + "," + rbe.plain(hashArg, call).String()
 			okR = strings.HasPrefix(s, "pwd,0x20,") && strings.Contains(s, "sha1.New") && strings.Contains(wk, s[len("pwd,0x20,"):])
 			// salt and iteration count come from the parsed parameters
 			okR = okR && strings.Contains(rbe.plain(a[1], call).String(), "Salt") && strings.Contains(rbe.plain(a[2], call).String(), "IterationCount")
